@@ -189,6 +189,10 @@ def special_models():
         lambda: pg.All(pg.Any(pg.AtLeast(1, ["x1"]), "p", variable="P"), pg.Any(pg.AtLeast(11, [puan.variable("x", (0, 20))]), "q", variable="Q"), variable="T"),
         lambda: pg.Xor(pg.Any("a", "b"), pg.AtLeast(1, ["a", "b"], variable="N"), variable="T"),
         lambda: pg.All(pg.XNor("a", "b"), pg.Xor("a", "b", variable="X"), pg.Any("a", "b"), variable="T"),
+        # a single child, thresholds <= 0 with the default sign, explicit positive sign with a non-positive threshold
+        lambda: pg.All(pg.Any(x, variable="S"), pg.AtLeast(0, ["a", "b"], variable="Z"), variable="T"),
+        lambda: pg.Any(pg.AtLeast(-1, [t, x], variable="P", sign=puan.Sign.POSITIVE), "a", variable="T"),
+        lambda: pg.All(pg.AtLeast(0, [t], variable="P", sign=1), pg.AtMost(-1, [t, "a"], variable="Q"), variable="T"),
     ]
     out = []
     for f in mk:
